@@ -62,29 +62,34 @@ def removeOpcodeByData (script dataToRemove : Bytes) : Bytes × Bool :=
 
 def oneHash : Bytes := 1 :: List.replicate 31 0
 
-/-- `calcSignatureHash(sigScript, hashType, tx, idx)`; `H` = SHA-256.
+/-- `calcSignatureHash` after the code separators were removed from the script (the removal is
+pure, so doing it before the early SIGHASH_SINGLE return changes nothing).
 `panic`: the slice expression `txCopy.TxIn[idx:idx+1]` with `idx ≥ len`. -/
-def calcSignatureHash (H : Bytes → Bytes) (sigScript : Bytes) (hashType : UInt32) (tx : Tx)
+def calcSignatureHashCore (H : Bytes → Bytes) (sigScript : Bytes) (hashType : UInt32) (tx : Tx)
     (idx : Nat) : Out :=
   if (hashType &&& 0x1f) = 3 ∧ idx ≥ tx.outs.length then .digest oneHash else
-  let sigScript := removeOpcodeRaw sigScript 0xab
   -- shallow copy; blank every script but the signed one
   let ins := tx.ins.mapIdx (fun i (inp : TxIn) =>
     if i = idx then { inp with script := sigScript } else { inp with script := [] })
   let zeroSeq (l : List TxIn) : List TxIn :=
     l.mapIdx (fun i (inp : TxIn) => if i ≠ idx then { inp with sequence := 0 } else inp)
-  let (ins, outs) :=
+  let insOuts : List TxIn × List TxOut :=
     if (hashType &&& 0x1f) = 2 then (zeroSeq ins, ([] : List TxOut))
     else if (hashType &&& 0x1f) = 3 then
       (zeroSeq ins, (tx.outs.take (idx + 1)).mapIdx (fun i (o : TxOut) =>
         if i < idx then ({ value := 0xffffffffffffffff, pkScript := [] } : TxOut) else o))
     else (ins, tx.outs)
   if (hashType &&& 0x80) ≠ 0 then
-    if idx ≥ ins.length then .panic else
-    let ins := (ins.drop idx).take 1
-    .digest (H (H (txSerNoWitness ⟨tx.version, ins, outs, tx.lockTime⟩ ++ le32 hashType)))
+    if idx ≥ insOuts.1.length then .panic else
+    .digest (H (H (txSerNoWitness ⟨tx.version, (insOuts.1.drop idx).take 1, insOuts.2, tx.lockTime⟩ ++
+      le32 hashType)))
   else
-    .digest (H (H (txSerNoWitness ⟨tx.version, ins, outs, tx.lockTime⟩ ++ le32 hashType)))
+    .digest (H (H (txSerNoWitness ⟨tx.version, insOuts.1, insOuts.2, tx.lockTime⟩ ++ le32 hashType)))
+
+/-- `calcSignatureHash(sigScript, hashType, tx, idx)`; `H` = SHA-256. -/
+def calcSignatureHash (H : Bytes → Bytes) (sigScript : Bytes) (hashType : UInt32) (tx : Tx)
+    (idx : Nat) : Out :=
+  calcSignatureHashCore H (removeOpcodeRaw sigScript 0xab) hashType tx idx
 
 /-- exported `CalcSignatureHash`: parse check first -/
 def CalcSignatureHash (H : Bytes → Bytes) (script : Bytes) (hashType : UInt32) (tx : Tx)
@@ -133,7 +138,8 @@ def scanInputs (fetch : OutPoint → TxOut) : List TxIn → Bool → Bool → Bo
 
 /-- `NewTxSigHashes(tx, inputFetcher)` -/
 def newTxSigHashes (H : Bytes → Bytes) (tx : Tx) (fetch : OutPoint → TxOut) : SigHashes :=
-  let (hasV0, hasV1) := scanInputs fetch tx.ins false false
+  let hasV0 := (scanInputs fetch tx.ins false false).1
+  let hasV1 := (scanInputs fetch tx.ins false false).2
   let p1 := calcHashPrevOuts H tx
   let s1 := calcHashSequence H tx
   let o1 := calcHashOutputs H tx
@@ -143,6 +149,15 @@ def newTxSigHashes (H : Bytes → Bytes) (tx : Tx) (fetch : OutPoint → TxOut) 
     hashOutputsV0 := if hasV0 then H o1 else zero32,
     hashInputAmountsV1 := if hasV1 then calcHashInputAmounts H tx fetch else zero32,
     hashInputScriptsV1 := if hasV1 then calcHashInputScripts H tx fetch else zero32 }
+
+/-- every midstate computed from scratch, unconditionally ("no cache") -/
+def freshSigHashes (H : Bytes → Bytes) (tx : Tx) (fetch : OutPoint → TxOut) : SigHashes :=
+  { hashPrevOutsV1 := calcHashPrevOuts H tx, hashSequenceV1 := calcHashSequence H tx,
+    hashOutputsV1 := calcHashOutputs H tx,
+    hashPrevOutsV0 := H (calcHashPrevOuts H tx), hashSequenceV0 := H (calcHashSequence H tx),
+    hashOutputsV0 := H (calcHashOutputs H tx),
+    hashInputAmountsV1 := calcHashInputAmounts H tx fetch,
+    hashInputScriptsV1 := calcHashInputScripts H tx fetch }
 
 /-- `HashCache`: txid-keyed map of midstates -/
 abbrev HashCache := List (Bytes × SigHashes)
@@ -155,6 +170,11 @@ def HashCache.purge (c : HashCache) (txid : Bytes) : HashCache := c.filter (fun 
 
 def isWitnessPubKeyHashScript (s : Bytes) : Bool :=
   s.length == 22 && s[0]? == some 0 && s[1]? == some 0x14
+
+/-- double SHA-256 of `wire.WriteTxOut(tx.TxOut[idx])` (the index was bounds-checked by the caller) -/
+def singleOutputHash (H : Bytes → Bytes) : Option TxOut → Bytes
+  | some o => H (H (txOutSer o))
+  | none => zero32
 
 /-- `calcWitnessSignatureHashRaw(subScript, sigHashes, hashType, tx, idx, amt)` -/
 def calcWitnessSignatureHashRaw (H : Bytes → Bytes) (subScript : Bytes) (sh : SigHashes)
@@ -176,9 +196,7 @@ def calcWitnessSignatureHashRaw (H : Bytes → Bytes) (subScript : Bytes) (sh : 
     let b6 :=
       if (hashType &&& 0x1f) ≠ 3 ∧ (hashType &&& 0x1f) ≠ 2 then sh.hashOutputsV0
       else if (hashType &&& 0x1f) = 3 ∧ idx < tx.outs.length then
-        match tx.outs[idx]? with
-        | some o => H (H (txOutSer o))
-        | none => zero32
+        singleOutputHash H tx.outs[idx]?
       else zero32
     .digest (H (H (b0 ++ b1 ++ b2 ++ b3 ++ b4 ++ b5 ++ b6 ++ le32 tx.lockTime ++ le32 hashType)))
 
@@ -203,6 +221,17 @@ def withAnnex (H : Bytes → Bytes) (annex : Bytes) (o : TaprootSigHashOptions) 
 def withBaseTapscriptVersion (codeSepPos : UInt32) (tapLeafHash : Bytes)
     (o : TaprootSigHashOptions) : TaprootSigHashOptions :=
   { o with extFlag := 1, tapLeafHash := tapLeafHash, keyVersion := 0, codeSepPos := codeSepPos }
+
+/-- the option list the callers build: tapscript extension first, then the annex -/
+def mkOpts (H : Bytes → Bytes) (annex : Option Bytes) (ext : Option (Bytes × UInt32)) :
+    TaprootSigHashOptions :=
+  let o : TaprootSigHashOptions := {}
+  let o := match ext with
+    | some e => withBaseTapscriptVersion e.2 e.1 o
+    | none => o
+  match annex with
+  | some a => withAnnex H a o
+  | none => o
 
 def isValidTaprootSigHash (hashType : UInt32) : Bool :=
   hashType == 0 || hashType == 1 || hashType == 2 || hashType == 3 ||
